@@ -9,7 +9,9 @@ META = dict(
          "is possible once the previous client socket from it was closed, so repeated peer addresses and stale entries "
          "arise), peer closes, serviceConnects, serviceReceivesAllIx, removeIx(P), closeIx(P) - BFS to depth 8 (quick) / 11 "
          "(thorough) with states merged on a canonical form of the tables (key order, per-connection socket-double state, "
-         "cutoff, received bytes) and the listener backlog. After every transition: no operation raised; per peer address at "
+         "cutoff, received bytes) and the listener backlog. A second family adds peerreset(P) - the peer resets the "
+         "connection, after which shutdown() on the server-side socket raises ENOTCONN / EBADF / EINVAL (plain OSError) or "
+         "ECONNRESET / EPIPE (ConnectionError) - and closeAllIx, BFS depth 5 / 8 per errno. After every transition: no operation raised; per peer address at "
          "most one table entry (.ixes and .cxes together) whose socket is neither shut down nor closed; the newest accepted, "
          "not removed connection of each address is the one in the table; a replaced stale connection is shut down or "
          "closed; no other socket was shut down or closed; removeIx leaves the socket closed and the key gone.",
@@ -23,6 +25,10 @@ PORT = 7000
 HA = (net.LOOP, PORT)
 PEERS = ((net.LOOP, 40001), (net.LOOP, 40002))
 DEPTH = dict(quick=8, thorough=11)
+# configurations with a peerreset(P) event: the peer resets the connection, after which shutdown() on the
+# server-side socket raises this errno (plain OSErrors and the ConnectionError family); shallower BFS
+SHUTDOWN_FAULTS = ("ENOTCONN", "EBADF", "EINVAL", "ECONNRESET", "EPIPE")
+FAULT_DEPTH = dict(quick=5, thorough=8)
 
 FSM = None
 M = None
@@ -51,7 +57,7 @@ class HsPolicy:
 
 
 class Conn:
-    __slots__ = ("idx", "peer", "client", "srv", "accepted", "removed", "closedix")
+    __slots__ = ("idx", "peer", "client", "srv", "accepted", "removed", "closedix", "reset")
 
     def __init__(self, idx, peer, client, srv):
         self.idx = idx
@@ -61,13 +67,15 @@ class Conn:
         self.accepted = False   # left the listener backlog
         self.removed = False    # removeIx was applied to its entry
         self.closedix = False   # closeIx was applied to its entry
+        self.reset = False      # the peer reset it: shutdown() on the server-side socket raises the configured errno
 
 
 class World:
     """Fresh real server + doubles with a history replayed; .viol = first violated invariant."""
 
-    def __init__(self, subject, history):
+    def __init__(self, subject, history, fault=None):
         self.subject = subject
+        self.fault = fault      # errno name raised by shutdown() after a peerreset, or None (no such event)
         self.policy = HsPolicy()
         self.fn = net.FakeNet(policy=self.policy)
         FSM.net = self.fn
@@ -119,6 +127,8 @@ class World:
             return "closed"
         if sock.shut_wr or sock.shut_rd:
             return "shut"
+        if "shutdown" in sock.sticky and sock.calls["shutdown"]:
+            return "shut"       # shutdown was attempted on a transport the peer had already reset
         return "open"
 
     # -- events
@@ -129,6 +139,8 @@ class World:
                 evs.append(("connect", p))
             else:
                 evs.append(("peerclose", p))
+                if self.fault:
+                    evs.append(("peerreset", p))
         if self.subject == "ServerTls":
             evs.append(("serviceConnects", "ok"))
             if self.srv.cxes or self.srv.ss.backlog:
@@ -141,6 +153,8 @@ class World:
                 evs.append(("removeIx", p))
                 if self.srv.ixes[p].cs is not None:
                     evs.append(("closeIx", p))
+        if self.fault and any(ix.cs is not None for ix in self.srv.ixes.values()):
+            evs.append(("closeAllIx",))
         return evs
 
     def apply(self, ev):
@@ -162,6 +176,13 @@ class World:
                 return
             if op == "peerclose":
                 self.live.pop(ev[1]).client.close()
+                return
+            if op == "peerreset":
+                import errno
+                conn = self.live.pop(ev[1])
+                conn.client.close()
+                conn.reset = True
+                conn.srv.stick("shutdown", net.ERR(getattr(errno, self.fault)))
                 return
             if op == "serviceConnects":
                 self.policy.pend = (ev[1] == "pend")
@@ -194,6 +215,14 @@ class World:
                 conn.closedix = True
                 if not conn.srv.closed:
                     self.viol = ("closeIx-socket-open", "closeIx(%r) did not close the entry's socket" % (ev[1],))
+            elif op == "closeAllIx":
+                conns = [self.conn_of(inc) for inc in srv.ixes.values() if inc.cs is not None]
+                srv.closeAllIx()
+                for conn in conns:
+                    conn.closedix = True
+                    if not conn.srv.closed and self.viol is None:
+                        self.viol = ("closeAllIx-socket-open", "closeAllIx() left the socket of the entry for %r open"
+                                     % (conn.peer,))
             else:
                 raise core.BrokenCheck("unknown event %r" % (ev,))
         except core.BrokenCheck:
@@ -275,7 +304,8 @@ class World:
                 inback = c.srv in srv.ss.backlog
                 if not ref and not inback and st == "closed" and c.client.closed:
                     continue          # fully dead: cannot influence anything any more
-                row.append((ref, inback, st, c.client.closed, c.removed, c.closedix, len(c.srv.inbox)))
+                row.append((ref, inback, st, c.client.closed, c.removed, c.closedix, len(c.srv.inbox), c.reset,
+                            c.srv.calls["shutdown"] > 0))
             per.append((p in self.live, tuple(row)))
         order = tuple(tuple(tbl.keys()) for _, tbl in self.tables())
         back = tuple(s.raddr for s in srv.ss.backlog)
@@ -296,13 +326,15 @@ def finish_replay(pid, path, p):
 
 def report(p, subject, w, hist):
     kind, what = w.viol
-    p.violation("%s|%s" % (subject, kind), " ".join(show(e) for e in hist),
-                "%s after history [%s]: %s" % (subject, ", ".join(show(e) for e in hist), what),
-                dict(subject=subject, history=[[e[0]] + [list(x) if isinstance(x, tuple) else x for x in e[1:]] for e in hist],
+    ftag = " [after peerreset shutdown() raises %s]" % w.fault if w.fault else ""
+    p.violation("%s|%s" % (subject, kind), " ".join(show(e) for e in hist) + (" shutdown=%s" % w.fault if w.fault else ""),
+                "%s after history [%s]%s: %s" % (subject, ", ".join(show(e) for e in hist), ftag, what),
+                dict(subject=subject, shutdown_fault=w.fault, history=[[e[0]] + [list(x) if isinstance(x, tuple) else x for x in e[1:]] for e in hist],
                      what=what, double_log=w.fn.trace(30),
                      how="serving.%s(ha=('',%d)) over mc.net doubles; connect = raw client bound to the peer "
-                         "address connects and sends one byte; peerclose = that client closes; the other "
-                         "events are the server methods of the same name" % (subject, PORT)))
+                         "address connects and sends one byte; peerclose = that client closes; peerreset = that client "
+                         "closes and every later shutdown() of the server-side socket raises OSError(shutdown_fault); the "
+                         "other events are the server methods of the same name" % (subject, PORT)))
 
 
 def replay(path):
@@ -311,21 +343,21 @@ def replay(path):
     init()
     p = core.Part()
     hist = [tuple(tuple(x) if isinstance(x, list) else x for x in e) for e in r["history"]]
-    w = World(r["subject"], hist)
+    w = World(r["subject"], hist, r.get("shutdown_fault"))
     if w.viol:
         report(p, r["subject"], w, hist[:len(w.history)])
     return finish_replay("C26", path, p)
 
 
 def explore(arg):
-    subject, depth = arg
+    subject, depth, fault = arg
     init()
     p = core.Part()
     seen_terminal = set()
 
     def build(hist):
         with core.watchdog(20):
-            return World(subject, hist)
+            return World(subject, hist, fault)
 
     def enabled(w, hist):
         return w.enabled()
@@ -350,7 +382,7 @@ def explore(arg):
     p.states = st["states"]
     p.transitions = st["transitions"]
     p.evaluations = st["transitions"]
-    p.extra["bfs_%s" % subject] = st
+    p.extra["bfs_%s_%s" % (subject, fault or "nofault")] = st
     return p
 
 
@@ -370,21 +402,29 @@ def run():
     net.selftest()
     ck = core.Check("C26", META["level"], META["technique"])
     depth = DEPTH[core.TIER]
-    ck.merge(core.pmap(explore, [("Server", depth), ("ServerTls", depth)]))
+    fdepth = FAULT_DEPTH[core.TIER]
+    cfgs = [("Server", depth, None), ("ServerTls", depth, None)]
+    cfgs += [(sub, fdepth, f) for f in SHUTDOWN_FAULTS for sub in ("Server", "ServerTls")]
+    ck.merge(core.pmap(explore, cfgs))
     ck.assumptions = [
         "a second connection from the same peer address can be made only after the previous client socket bound to that "
         "address was closed (TCP four-tuple uniqueness); the server may not have noticed that close yet (stale entry)",
         "'shut down' is observable on the double as shutdown() or close() having been called on the server-side socket",
         "ServerTls: .cxes (accepted, handshake pending) and .ixes together are the table of accepted connections",
         "relies on odict.items()/values() returning list copies (ServerTls.serviceCxes deletes while iterating)",
+        "after a peer reset, shutdown() on the server-side socket raises the configured errno every time (ENOTCONN is what "
+        "Linux answers; EBADF, EINVAL, ECONNRESET, EPIPE for completeness); an attempted shutdown on such a socket counts as "
+        "'shut down' since the transport is already gone",
         "closeIx leaves a closed entry in the table by design; serviceReceivesAllIx on such a table is outside the statement",
     ]
-    ck.coverage_extra = dict(depth=depth, peers=[list(x) for x in PEERS], subjects=["Server", "ServerTls"],
+    ck.coverage_extra = dict(shutdown_faults=list(SHUTDOWN_FAULTS), fault_depth=fdepth, depth=depth, peers=[list(x) for x in PEERS], subjects=["Server", "ServerTls"],
                              max_depth=depth)
     return ck.finish(
         rule="BFS over all histories of {connect(P), peerclose(P), serviceConnects[ok|pend], serviceReceivesAllIx, "
-             "removeIx(P), closeIx(P)} for P in 2 peer addresses up to depth %d, per subject {Server, ServerTls}; states "
-             "merged by canonical form; a state that violates an invariant is not expanded" % depth,
+             "removeIx(P), closeIx(P)} for P in 2 peer addresses up to depth %d, per subject {Server, ServerTls}; plus, per "
+             "shutdown errno in {ENOTCONN, EBADF, EINVAL, ECONNRESET, EPIPE}, the same with the extra events peerreset(P) and "
+             "closeAllIx up to depth %d; states merged by canonical form; a state that violates an invariant is not "
+             "expanded" % (depth, fdepth),
         exhaustive=False,
         explanation="depth-bounded: exhaustive over all histories up to the stated depth, not a fixpoint "
                     "(leaked stale sockets make the state space unbounded)")
